@@ -685,6 +685,18 @@ class RelStore:
             if what[0] == "cols" and len(what[1]) != 1:
                 raise Unsupported("IN (SELECT ...) must select one column")
             stb = self._table(stable)
+            if scol not in stb.sort and scol in tb.sort:
+                # SQLite resolves a name the inner table does not have against the OUTER row (a
+                # correlated subquery): the subquery then yields the outer row's own value once per
+                # matching inner row
+                sm = self._match(stb, swhere, params)
+                some = z3.Or(*sm) if sm else z3.BoolVal(False)
+                a, b = r.v[col], r.v[scol]
+                same = (a == b) if tb.sort[col] == tb.sort[scol] else z3.BoolVal(False)
+                hit = z3.And(some, z3.Not(r.n[scol]), same)
+                nn = z3.Not(r.n[col])
+                t, f = z3.And(nn, hit), z3.And(nn, z3.Not(hit))
+                return (f, t) if neg else (t, f)
             self._need_col(stb, scol)
             sm = self._match(stb, swhere, params)
             alts = []
@@ -1054,7 +1066,9 @@ class RelStore:
                     raise sqlite3.IntegrityError("FOREIGN KEY constraint failed")
         tb.rows.append(Row(z3.BoolVal(True), rv, rn))
         self._changed([z3.BoolVal(True)])
-        return Cursor(self, [], lastrowid=rid)
+        cur = Cursor(self, [], lastrowid=rid)
+        cur.rowcount = 1
+        return cur
 
     def _update(self, st, params):
         _, table, sets, where = st
@@ -1083,6 +1097,7 @@ class RelStore:
                     r.v[c] = z3.simplify(z3.If(m, coerce(x, tb.sort[c], "%s.%s" % (table, c)), r.v[c]))
         self._changed(ms)
         cur = Cursor(self, [])
+        cur.rowcount = W(z3.simplify(z3.Sum(*[z3.If(m, 1, 0) for m in ms]) if ms else z3.IntVal(0)), INT)
         return cur
 
     def _changed(self, ms):
@@ -1112,7 +1127,9 @@ class RelStore:
         for r, m in zip(tb.rows, ms):
             r.p = z3.simplify(z3.And(r.p, z3.Not(m)))
         self._changed(ms)
-        return Cursor(self, [])
+        cur = Cursor(self, [])
+        cur.rowcount = W(z3.simplify(z3.Sum(*[z3.If(m, 1, 0) for m in ms]) if ms else z3.IntVal(0)), INT)
+        return cur
 
     # ---- harness-side construction ----
     def add_row(self, table, present, **vals):
